@@ -57,6 +57,11 @@ out.append('### 8.8 Seeded breaking changes and which check catches them (genera
 out.append('Four waves of four per property: `Cxx-1..4`, `Cxx-5..8`, `Cxx-9..12`, `Cxx-13..16` (every later wave was told which functions and mechanisms the earlier ones had used and asked for different ones: helper functions, rarely-set fields, error paths, aliasing, caching). Each change was produced by a fresh sub-agent that saw only the property text and a scratch worktree of /repo (nothing from /verif), then confirmed by the coordinator (`tools/verifyseeded.py`: compiles, the offline baseline tests pass, the demo passes without and fails with the patch). `tools/seededmatrix.py` applies each patch to a worktree of /repo, runs the quick check of the property (plus the properties listed for that change in `seeded/EXTRA.json`, where the change breaks a neighbouring property more directly), restores the tree, and records the outcome in `seeded/RESULTS.json`. Misses of a wave were handed to strengthening rounds (generators, new ops, new facts; never a loosened oracle) until caught; what is still missed is listed as MISSED below.\n')
 n=len(res); c=sum(1 for r in res.values() if r.get('result')=='caught'); ci=sum(1 for r in res.values() if r.get('result')=='caught' and r.get('kind','').startswith('spec'))
 out.append(f'Totals: {n} confirmed changes run, {c} caught ({ci} with a concrete failing input, {c-ci} as a broken obligation/correspondence), {n-c} missed.\n')
+if os.path.exists(f'{V}/seeded/RESULTS_seed2.json'):
+    r2 = json.load(open(f'{V}/seeded/RESULTS_seed2.json'))
+    c2 = sum(1 for r in r2.values() if r.get('result') == 'caught')
+    miss2 = sorted(k for k, r in r2.items() if r.get('result') != 'caught')
+    out.append(f'Robustness: the same matrix run again with `VERIF_SEED=2` (other generated inputs; corpus witnesses and enumerations are the same): {c2} of {len(r2)} caught' + (f"; not caught at that seed: {', '.join(miss2)} (then strengthened, see the notes in the table)" if miss2 else '') + '. Detections that depended on the seed during the rounds (C01-4, C13-8, C13-10, C13-14, C18-16) were made robust by generator changes or corpus witnesses.\n')
 out.append('| seeded change | files | what it breaks | result |')
 out.append('|---|---|---|---|')
 for d in sorted(glob.glob(f'{V}/seeded/C*-*')):
